@@ -1351,3 +1351,52 @@ def interpolation_window_rule(res, prog, rule, module="hll::cubic_interpolation"
                 break
         res.tri(verdict, rule, "%s|%s" % (rule, f.id), "%s: %s" % (f.id, wit), f.id, sample={"rule": rule, "fn": f.id, "tables": [4, 5, 9, 33]})
     res.rule(rule, n, 2, "table interpolators evaluated over every interval")
+
+
+# ------------------------------------------------------------------------------------------------ reset hands back an untouched fresh object
+def reset_assigns_fresh(prog, owner):
+    """`reset(&mut self)` implemented as `*self = <constructor>(..)`: the object assigned is the constructor's result as it came back.  A
+    fresh object that is modified between its construction and the assignment (`mem::swap(&mut fresh.map, &mut self.map)` to keep an
+    allocation) carries fields that were computed for the part that was swapped away (a cached capacity, a size log): the reset
+    sketch is then not in the state a new one is.  yields (fn, verdict, what); verdict False = a mutable borrow of the fresh object (or
+    of a part of it) is taken before the assignment; True = assigned untouched; nothing yielded when reset is not of this shape."""
+    for f in fns_of(prog, owner, "reset"):
+        if f.promoted or f.argc != 1 or not f.local_ty(1).startswith("&mut"):
+            continue
+        for b in f.blocks:
+            if b.cleanup:
+                continue
+            for i, st in enumerate(b.stmts):
+                if st[0] != "=" or isinstance(st[1], int):
+                    continue
+                pl = st[1]
+                if not (ir.pl_local(pl) == 1 and [p[0] for p in ir.pl_proj(pl)] == ["*"]) or st[2][0] != "use":
+                    continue
+                src = ir.op_place(st[2][1])
+                if src is None or not isinstance(src, int):
+                    continue
+                chain = {src}
+                for _ in range(4):       # `*self = move _t` with `_t = move fresh`
+                    d0 = f.single_def(src)
+                    if d0 is not None and d0[2] == "assign":
+                        rv0 = f.blocks[d0[0]].stmts[d0[1]][2]
+                        p0 = ir.op_place(rv0[1]) if rv0[0] == "use" else None
+                        if p0 is not None and isinstance(p0, int):
+                            src = p0
+                            chain.add(src)
+                            continue
+                    break
+                defs = f.defs().get(src, [])
+                made = [d for d in defs if d[2] == "call"]
+                if len(made) != 1 or (f.blocks[made[0][0]].term[1].get("callee") or "") not in prog.fns:
+                    continue
+                touched = None
+                for b2 in f.blocks:
+                    if b2.cleanup:
+                        continue
+                    for st2 in b2.stmts:
+                        if st2[0] == "=" and st2[2][0] == "ref" and st2[2][1] == "mut" and ir.pl_local(st2[2][2]) == src:
+                            touched = "a mutable borrow of `%s`%s" % (f.local_name(src) or "the fresh object", "".join("." + str(p[2]) for p in ir.pl_proj(st2[2][2]) if p[0] == "."))
+                        if st2[0] == "=" and not isinstance(st2[1], int) and ir.pl_local(st2[1]) == src:
+                            touched = "a store into `%s`" % (f.local_name(src) or "the fresh object")
+                yield f, (touched is None), touched or "assigned as constructed", st[3] if len(st) > 3 else None
